@@ -35,7 +35,9 @@ def outgoing_contract(name, has_buffer):
            P("C08+C12/returns-only-if-no-write-failed", NOFAIL)]
     te = [P("C12/failed-nothing-written", "log_unchanged() and unchanged('ghost.wdom', 'ghost.wcnt') and not parks"), H("C12/failure-counted", FAILED)]
     if has_buffer:
-        ens.append(P("C07+C12/parked-under-its-key", "implies(parks, key3(message) in message_buffer.set_messages and "
+        # (C08: "every command not yet written stays buffered" presupposes that parking one command never displaces another:
+        # one slot per (node, child, value type))
+        ens.append(P("C07+C08+C12/parked-under-its-key", "implies(parks, key3(message) in message_buffer.set_messages and "
                                                      "message_buffer.set_messages[key3(message)] is message and log_unchanged() "
                                                      "and unchanged('ghost.wdom', 'ghost.wcnt'))"))
         if name == "handle_set":
